@@ -149,6 +149,11 @@ def one_case(rng, tmpdir, tier, fails, stats, seen):
     nh = 3 if tier == 'quick' else 6
     for h in range(nh):
         chunks = sargen.row_chunks(rng, rows, 5)
+        if rows >= 4 and rng.random() < 0.3:
+            # a strided partition: the rows of each residue class modulo `step` form one chunk (addressed by subscript); together with a row
+            # limit the strided chunk is spread over several image segments
+            step = rng.choice([2, 3])
+            chunks = [(r0_, rows, step) for r0_ in range(step)]
         order = list(range(len(chunks)))
         rng.shuffle(order)
         flush_after = sorted(rng.sample(range(len(chunks)), rng.randint(0, len(chunks)))) if rng.random() < 0.6 else ()
